@@ -1,14 +1,38 @@
 """C18 - Re-encoding an accepted input reaches a fixed point (binary part: spec/Wire.tla Canon)."""
+import json, os
+import vlib
 from checks import wirecommon as wc
+
+
+def typed_fixed_point(ctx):
+    """typed targets: perturbed whole messages (zeroed leaves, unknown / duplicated / swapped elements) through the real
+    decode -> encode -> decode -> encode cycle in the three encodings"""
+    binary = ctx.build_driver("plan")
+    opath = os.path.join(ctx.work, "typed_fixed_point.ndjson")
+    rc, out = ctx.run_driver(binary, test_run="^TestTypedFixedPoint$", env={"VERIF_OUT": opath})
+    if rc != 0 or not os.path.exists(opath):
+        raise vlib.Inconclusive("typed fixed point driver failed rc=%s\n%s" % (rc, out[-3000:]))
+    res = vlib.read_ndjson(opath)
+    summ = [x for x in res if x.get("summary")][0]
+    for x in res:
+        if x.get("summary"):
+            continue
+        for p in x["problems"]:
+            parts = p.split(":")
+            op, d, label = x["input"].split("/", 2)
+            sig = "typed:%s:%s:%s" % (parts[0], parts[1], label)
+            ctx.violation(sig, "message %s direction %s perturbed by %s (%s): %s" % (op, d, label, x["hex"][:400], p[:400]), x)
+    return summ
 
 
 def run(ctx):
     cases = wc.tlc_modes(ctx, ["noncanon", "mutants", "trees"])
     n = wc.replay(ctx, cases, ["c18:"])
+    tf = typed_fixed_point(ctx)
     acc = [c for c in cases if c["kind"] == "bytes" and c.get("accept")]
     ctx.finish("model_checking", {
-        "evaluations": n,
+        "evaluations": n + tf["inputs"], "typed_inputs": tf["inputs"], "typed_inputs_accepted": tf["accepted"],
         "distinct_nontrivial": len([c for c in acc if not c.get("strict")]),
-        "rule": "inputs = the accepted ones among: non-canonical encodings (non-zero padding, over-long / unpadded big integers, booleans with other bits set, structures around them), every truncation and single-header corruption of 4 base encodings, all canonical trees; TLC checks Canon(Canon(x)) = Canon(x) and Parse(Canon(x)) = Parse(x) on Wire.tla; the library decodes each accepted input, re-encodes, decodes and re-encodes again: the second re-encoding must be byte-identical to the first and the re-encoding must be accepted; non-trivial = accepted but not canonical",
+        "rule": "inputs = the accepted ones among: non-canonical encodings (non-zero padding, over-long / unpadded big integers, booleans with other bits set, structures around them), every truncation and single-header corruption of 4 base encodings, all canonical trees; TLC checks Canon(Canon(x)) = Canon(x) and Parse(Canon(x)) = Parse(x) on Wire.tla; the library decodes each accepted input, re-encodes, decodes and re-encodes again: the second re-encoding must be byte-identical to the first and the re-encoding must be accepted; non-trivial = accepted but not canonical; plus, for typed targets, every whole message (27 operations x 2 directions) perturbed at every node (leaf value zeroed, unknown element appended, last child duplicated, first two children swapped) through decode / encode / decode / encode in binary, XML and JSON - the oracle there is the fixed-point property itself",
         "exhaustive": True, "cases_replayed_against_impl": n, "samples": acc[:3],
     }, assumptions=["binary encoding only in this check; alternative XML / JSON lexical forms and the cross-encoding hops are not yet covered by a specification (DESIGN.md section 7)"])
